@@ -356,6 +356,9 @@ const (
 	planTimeout = 4 * time.Second
 	retryBase   = 4 * time.Millisecond
 	retryMax    = 16 * time.Millisecond
+	// configuration `w1`
+	retrySlowBase = 400 * time.Millisecond
+	retrySlowMax  = 800 * time.Millisecond
 	// generous: they only fire in scripts that contain a silent fault / an unanswered CONNECT, and a
 	// loaded machine must not make them fire anywhere else
 	retryRespTimeout = 700 * time.Millisecond
@@ -379,6 +382,11 @@ type retryRun struct {
 	curHandle int
 	released  int // dial gate releases so far
 	discDone  chan error
+	base, max time.Duration // back-off configuration of this run
+	cancelled bool
+	firstAcked bool
+	started    bool
+	startAt, discAt, cancelAt time.Time // zero if the event did not happen (cancelAt: only an effective cancellation)
 }
 
 func (r *retryRun) dialPending() bool {
@@ -402,7 +410,10 @@ func (r *retryRun) isUp(c *sConn) bool {
 func msgTopic(m int) string { return fmt.Sprintf("t/%d", m%3) }
 
 func msgOf(m int, qos int) *mqtt.Message {
-	return &mqtt.Message{Topic: msgTopic(m), Payload: []byte{byte(m >> 8), byte(m), 0xAB}, QoS: mqtt.QoS(qos), Retain: m%2 == 1}
+	return &mqtt.Message{Topic: msgTopic(m), Payload: []byte{byte(m >> 8), byte(m), 0xAB}, QoS: mqtt.QoS(qos), Retain: m%2 == 1,
+		// the application may hand over a Message whose Dup field is already set (e.g. one it received): the first
+		// transmission must still go out with DUP=0 (MQTT-3.3.1-1)
+		Dup: m%3 == 2}
 }
 
 func (r *retryRun) counters() planPoint {
@@ -468,7 +479,12 @@ func runRetryScript(cfg, method, faultStr string, evs []string, plan []planPoint
 		}
 	}
 	r.rc = rc
-	opts := []mqtt.ReconnectOption{mqtt.WithRetryClient(rc), mqtt.WithReconnectWait(retryBase, retryMax), mqtt.WithAlwaysResubscribe(cfg[3] == '1')}
+	r.base, r.max = retryBase, retryMax
+	if strings.HasSuffix(cfg, "w1") {
+		// long back-off: the script's events land while the loop waits to redial; `wait` lets the timer fire
+		r.base, r.max = retrySlowBase, retrySlowMax
+	}
+	opts := []mqtt.ReconnectOption{mqtt.WithRetryClient(rc), mqtt.WithReconnectWait(r.base, r.max), mqtt.WithAlwaysResubscribe(cfg[3] == '1')}
 	if cfg[5] == '1' {
 		opts = append(opts, mqtt.WithTimeout(retryConnTimeout))
 	}
@@ -493,6 +509,11 @@ func runRetryScript(cfg, method, faultStr string, evs []string, plan []planPoint
 		f := strings.Split(ev, ":")
 		switch f[0] {
 		case "start":
+			if r.cancelled {
+				r.released++ // the one DialContext call of a Connect with a finished context returns by itself
+			}
+			r.started = true
+			r.startAt = time.Now()
 			go func() {
 				sp, err := cli.Connect(connCtx, "cid", mqtt.WithCleanSession(false), mqtt.WithUserNamePassword("user", "pw"),
 					mqtt.WithWill(&mqtt.Message{Topic: "will/t", Payload: []byte{1, 2}, QoS: mqtt.QoS1, Retain: true}))
@@ -600,6 +621,14 @@ func runRetryScript(cfg, method, faultStr string, evs []string, plan []planPoint
 			sc.cond.Broadcast()
 			sc.mu.Unlock()
 			c.waitDrained()
+			if !r.firstAcked {
+				// ReconnectClient.Connect returns now; later events (cancel) must find it returned
+				r.firstAcked = true
+				select {
+				case <-r.connDone:
+				case <-time.After(3 * time.Second):
+				}
+			}
 		case "ack-":
 			if c := curConn(); c != nil && r.awaitingConnack(c) {
 				c.cli.VerifSetIDLast(r.idStart[c.k])
@@ -618,14 +647,16 @@ func runRetryScript(cfg, method, faultStr string, evs []string, plan []planPoint
 				sc.mu.Unlock()
 			}
 		case "close":
-			if c := curConn(); c != nil && r.isUp(c) {
+			// (after Disconnect the model's loop has exited and ignores the broker's actions; a connection that
+			// Disconnect left open — see DESIGN.md, observation O1 — is not exercised further)
+			if c := curConn(); c != nil && r.isUp(c) && r.discDone == nil {
 				sc.mu.Lock()
 				c.markDeadLocked(true)
 				sc.cond.Broadcast()
 				sc.mu.Unlock()
 			}
 		case "in":
-			if c := curConn(); c != nil && r.isUp(c) {
+			if c := curConn(); c != nil && r.isUp(c) && r.discDone == nil {
 				m, q := atoi(f[1]), atoi(f[2])
 				sc.mu.Lock()
 				sc.msgConn[m] = c.k
@@ -648,17 +679,44 @@ func runRetryScript(cfg, method, faultStr string, evs []string, plan []planPoint
 				sc.cond.Broadcast()
 				sc.mu.Unlock()
 			}))
-		case "disc":
-			if r.dialPending() {
-				// a real dialer returns eventually; release the gate so that the loop can observe the signal
-				r.released++
-				go func() {
-					select {
-					case sc.dialCh <- dialResult{ok: false}:
-					case <-time.After(2 * time.Second):
-					}
-				}()
+		case "bad":
+			// a protocol error: the broker sends a packet of the reserved type 15; the client must end the connection
+			if c := curConn(); c != nil && r.isUp(c) && r.discDone == nil {
+				sc.mu.Lock()
+				c.in = append(c.in, 0xF0, 0x00)
+				sc.cond.Broadcast()
+				sc.mu.Unlock()
 			}
+		case "cancel":
+			// the context given to ReconnectClient.Connect is cancelled; a context-aware dialer returns at once
+			if !r.cancelled {
+				r.cancelled = true
+				first := true
+				select {
+				case <-r.connDone:
+					first = false // Connect has returned: the loop no longer depends on this context
+				default:
+				}
+				pending := first && r.dialPending()
+				if c := curConn(); first && c != nil && r.awaitingConnack(c) {
+					c.cli.VerifSetIDLast(r.idStart[c.k]) // as for every other way a CONNECT attempt ends
+					sc.mu.Lock()
+					c.answered = true
+					sc.mu.Unlock()
+				}
+				if first && r.started {
+					r.cancelAt = time.Now()
+				}
+				connCancel()
+				if pending {
+					r.released++ // that DialContext call has returned ctx.Err() by itself
+				}
+			}
+		case "wait":
+			// the back-off timer fires by itself; the plan of this event waits for the dial request
+		case "disc":
+			// a DialContext in flight is not interrupted by Disconnect: the script says how it ends
+			// (dial+ / dial-); if it does not, the gate is released with a failure after the script
 			// Disconnect returns when the loop has finished; while the loop is inside Connect (waiting for
 			// CONNACK) that takes until the CONNACK gate is resolved, so the script goes on meanwhile
 			if r.discDone == nil {
@@ -672,6 +730,9 @@ func runRetryScript(cfg, method, faultStr string, evs []string, plan []planPoint
 				deadline := time.Now().Add(3 * time.Second)
 				for time.Now().Before(deadline) && !r.rc.VerifStopped() {
 					time.Sleep(100 * time.Microsecond)
+				}
+				if r.started {
+					r.discAt = time.Now()
 				}
 			}
 		}
@@ -688,7 +749,22 @@ func runRetryScript(cfg, method, faultStr string, evs []string, plan []planPoint
 	}
 	// final settle: anything the model did not predict shows up in the trace
 	time.Sleep(25 * time.Millisecond)
+	if r.cancelled && r.started {
+		// Connect returns the context's error (or has returned before the cancellation)
+		select {
+		case <-r.connDone:
+		case <-time.After(3 * time.Second):
+			r.planMiss = append(r.planMiss, "cancel:connect-did-not-return")
+		}
+	}
 	if r.discDone != nil {
+		if r.dialPending() {
+			r.released++
+			select {
+			case sc.dialCh <- dialResult{ok: false}:
+			case <-time.After(2 * time.Second):
+			}
+		}
 		select {
 		case err := <-r.discDone:
 			if err != nil && errors.Is(err, context.DeadlineExceeded) {
